@@ -581,5 +581,14 @@ pub proof fn thm_tr_untweaked_key_iff(p: ProjectivePoint, q: ProjectivePoint, m:
     }
 }
 
+// the premise of the world-generic aggregate contract holds for the Taproot suite whenever the even-Y package exists
+pub proof fn lemma_tr_keeps_ids(sp: SigningPackage<TR>, sh: BTreeMap<Identifier<TR>, crate::round2::SignatureShare<TR>>, pk: PublicKeyPackage<TR>)
+    requires exists|q: PublicKeyPackage<TR>| tr_pkp_even_is(pk, q)
+    ensures pre_aggregate_keeps_ids_at::<TR>(sp, sh, pk), commitment_hooks_unused::<TR>()
+{
+    lemma_taproot_world();
+    assert(tr_pkp_even_is(pk, tr_pkp_even(pk)));
+}
+
 } // verus!
 }
